@@ -14,3 +14,25 @@ package ratelimiter
 //@ func (*BucketManager).OnSuccess
 //@   opaque
 //@   modifies tokenBucket::*, managedBucket::*, mapof(bm.buckets)
+
+// ---------------------------------------------------------------------------------------
+// C16: the per-host limiter table stays within its configured bound.
+// tableOK: every key of the table is a non-empty host with a bucket whose use counter is below
+// the eviction sentinel (math.MaxInt32). Under tableOK, evictLFU removes exactly one entry of
+// a non-empty table, so getBucket never lets the table grow beyond maxBuckets.
+//@ pred tableOK(bm *BucketManager) = bm.buckets != nil && forall(k, string, has(bm.buckets, k) ==> k != "" && bm.buckets[k] != nil && bm.buckets[k].usageCount < 2147483647)
+
+//@ func (*BucketManager).evictLFU
+//@   property C16
+//@   requires tableOK(bm)
+//@   modifies mapof(bm.buckets)
+//@   loop rangemap invariant [lfu] forall(k, string, visited(k) ==> lfuKey != "") && (lfuKey == "" ==> lfuUsage == 2147483647) && (lfuKey != "" ==> has(bm.buckets, lfuKey)) && tableOK(bm) && len(bm.buckets) == old(len(bm.buckets)) && bm.buckets == old(bm.buckets)
+//@   ensures [evicts-one] old(len(bm.buckets)) > 0 ==> len(bm.buckets) == old(len(bm.buckets)) - 1 // C16: LFU eviction at maxBuckets
+//@   ensures [keeps-ok] tableOK(bm) && len(bm.buckets) <= old(len(bm.buckets))
+
+//@ func (*BucketManager).getBucket
+//@   property C16
+//@   requires tableOK(bm) && bm.maxBuckets >= 1 && host != "" && bm.capacity >= 0 && bm.refillRate > 0
+//@   modifies mapof(bm.buckets), managedBucket::usageCount, managedBucket::lastAccess
+//@   ensures [bounded] old(len(bm.buckets)) <= bm.maxBuckets ==> len(bm.buckets) <= bm.maxBuckets // C16: the per-host limiter table stays within its configured bound
+//@   ensures [tracked] result != nil && has(bm.buckets, host)
